@@ -246,6 +246,15 @@ def run(tier, seed, replay=None):
             rep.fail("C08 oracle: %r: %s" % (src[:120], bad),
                      {"kind": "failing-input", "cases": [dict(kind=kind, line=line, meta=meta)], "source": src, "observed": oi, "model": om},
                      known_class(src) if "panicked" not in bad else ())
+    # link between the theorems' hypothesis wf_lf and what the parser produces: every parsed
+    # program without `let` and without `[]` must pass the executable test wf_lfb
+    lf = [(kind, meta["src"]) for (kind, line, meta), oi in zip(cases, impl)
+          if oi != "SYNTAX" and "let" not in meta["src"] and "[]" not in meta["src"].replace(" ", "") and "`" not in meta["src"]]
+    wf_out = run_model(model, ["milu_wf %s" % (s.encode().hex() or "-") for _, s in lf])
+    n_wf = sum(1 for o in wf_out if o == "WF")
+    not_wf = [s for (_, s), o in zip(lf, wf_out) if o == "NOT-WF"]
+    if not_wf and not rep.violations:
+        rep.broken_obligation("C08: a parsed let-free program is outside wf_lf, the hypothesis of the soundness theorems (%d programs)" % len(not_wf), not_wf[0])
     n_diff, first = diff_stats(rep, cases, impl, mod, "C08", "")
     if n_diff and not rep.violations:
         rep.broken_obligation("correspondence C08: checker/evaluator model (MiluEval.v) and the milu crate differ on %d program(s)" % n_diff, json.dumps(first)[:3000])
@@ -255,7 +264,7 @@ def run(tier, seed, replay=None):
     rep.coverage.update({
         "evaluations": len(cases), "distinct_nontrivial": accepted,
         "rule": "typed generator (int/bool/string expressions over every operator, builtin, let/if/?:, indexing, membership, request.* and cidr_match, depth 1-4), every operator and builtin over every combination of literal operand kinds (depth-2 exhaustive, incl. ill-typed), untyped random trees, a list of edge programs (i64 extremes, shifts, indices, regexes); 5 requests incl. port 0/65535 and a 70 kB listener name; non-trivial = distinct program accepted by the checker",
-        "input_distribution": dist, "accepted": accepted, "value_classes": classes, "model_impl_disagreements": n_diff,
+        "input_distribution": dist, "accepted": accepted, "let_free_programs_in_wf_lf": n_wf, "let_free_programs_outside_wf_lf": len(not_wf), "value_classes": classes, "model_impl_disagreements": n_diff,
         "samples": [dict(source=cases[i][2]["src"][:100], impl=impl[i][:100]) for i in range(0, len(cases), max(1, len(cases) // 6))][:6],
     })
     rep.assumptions = ["regex crate and IP/CIDR text parsing are oracles", "template strings are outside the model"]
